@@ -33,3 +33,12 @@ pub assume_specification<T, A: std::alloc::Allocator> [std::collections::VecDequ
     ensures
         q@.len() == 0 ==> r is None,
         q@.len() > 0 ==> r == Some(&q@[q@.len() - 1]);
+
+pub assume_specification<T, U, F> [std::option::Option::<T>::map_or] (o: std::option::Option<T>, default: U, f: F) -> (r: U)
+    where
+        F: std::ops::FnOnce(T,) -> U + std::marker::Destruct,
+        U: std::marker::Destruct,
+    requires
+        o is Some ==> call_requires(f, (o->Some_0,)),
+    ensures
+        match o { Some(t) => call_ensures(f, (t,), r), None => r == default };
